@@ -27,13 +27,29 @@ ASSUMPTIONS = ["RLIMIT_FSIZE stands in for a full file system and applies to eve
                "overflow = the end index of an appended subarray does not fit the index type"]
 EXHAUSTIVE = "the F-fsize grid for the values file and for the indices file"
 KINDS = ['raise', 'badatom', 'badrank', 'unconv', 'overflow', 'numstr', 'bare-scalar', 'atomshaped']
-MUST_HIT = ['iter:inside-open-context', 'fsize:refused-in-buffered-tail-of-big-item'] + ['iter:' + k for k in KINDS] + ['iter:append', 'iter:iterappend', 'iter:empty-start', 'iter:p=0', 'iter:p>0',
+MUST_HIT = ['iter:generator-whose-close-raises', 'iter:inside-open-context', 'fsize:refused-in-buffered-tail-of-big-item'] + ['iter:' + k for k in KINDS] + ['iter:append', 'iter:iterappend', 'iter:empty-start', 'iter:p=0', 'iter:p>0',
                                              'fsize:values', 'fsize:indices', 'fsize:loud', 'fsize:silent', 'fsize:mid-row', 'fsize:on-boundary']
 IDXMAX = {'int8': 127, 'uint8': 255, 'int16': 32767}
 
 
 class Boom(Exception):
     pass
+
+
+def _badclose(seq, out):
+    """A generator whose own clean-up fails when it is closed before it is exhausted (it is still suspended at a yield when the
+    append it feeds fails on a bad item): a second failure while cleaning up after the first."""
+    import sys
+    out.cls('iter:generator-whose-close-raises')
+    sys.unraisablehook = lambda *a: None       # (CPython reports the failing close of an abandoned generator on stderr)
+
+    def gen():
+        try:
+            for c in seq:
+                yield c
+        except GeneratorExit:
+            raise OSError('clean-up of the data source failed')
+    return gen()
 
 
 @st.composite
@@ -44,7 +60,7 @@ def st_iter(draw):
     spec = {'f': 'iter', 'dt': draw(gens.st_dt()), 'atom': atom, 'seed': draw(st.integers(0, 2 ** 31)),
             'start': [draw(st.sampled_from([0, 1, 2, 3])) for _ in range(draw(st.integers(0, 3)))],
             'n': n, 'p': draw(st.integers(0, n)), 'kind': kind, 'lens': [draw(st.sampled_from([0, 1, 2, 3])) for _ in range(n)],
-            'via': draw(st.sampled_from(['iterappend-gen', 'iterappend-list', 'append'])),
+            'via': draw(st.sampled_from(['iterappend-gen', 'iterappend-list', 'append', 'iterappend-gen-badclose'])),
             'indextype': draw(st.sampled_from(['int64', 'int32', 'uint16', 'int8'])),
             'ctx': draw(st.sampled_from([None, None, 'open_arrays', 'iter_arrays']))}
     if kind == 'overflow':
@@ -171,10 +187,10 @@ def _exec_iter(ctx, spec):
             else:
                 if kind == 'raise':
                     it = faults.FailingIter(list(done), Boom('iterable failed'))
-                    it = iter(it) if via == 'iterappend-gen' else it
+                    it = iter(it) if via in ('iterappend-gen', 'iterappend-gen-badclose') else it
                 else:
                     seq = list(done) + [bad] + good[p:]
-                    it = (c for c in seq) if via == 'iterappend-gen' else seq
+                    it = (c for c in seq) if via == 'iterappend-gen' else _badclose(seq, out) if via == 'iterappend-gen-badclose' else seq
                 ra.iterappend(it)
         except Exception as e:
             raised = e
@@ -298,7 +314,7 @@ def iter_grid():
             for n in range(0, 3):
                 for p in range(0, n + 1):
                     for kind in KINDS:
-                        for via in ('iterappend-gen', 'iterappend-list', 'append'):
+                        for via in ('iterappend-gen', 'iterappend-list', 'append', 'iterappend-gen-badclose'):
                             if kind == 'overflow' and itype not in IDXMAX:
                                 continue
                             yield {'f': 'iter', 'dt': {'t': t, 'bo': bo}, 'atom': atom, 'seed': 4, 'start': start, 'n': n, 'p': p, 'kind': kind,
